@@ -149,6 +149,23 @@ def placeLoop (used : Image) (w : Int) (dataBits : Nat) : (fuel : Nat) → MWalk
             let (rb, buf) := if rb = dataBits then skipToByte 8 rb buf else (rb, buf)
             placeLoop used w dataBits fuel { x, y, dy, readBits := rb } buf img
 
+/-- the edge score of the symbol masked with pattern `i` -/
+def maskScore (img used : Image) (i : Nat) : Out Nat := do
+  let pat ← deref (← imgAt maskList i)
+  let tmp ← Image.mask img used pat
+  tmp.pointMicro
+
+/-- the `MaskAuto` loop of `EncodeToBitmap`: the first pattern with the highest edge score -/
+def autoMask (img used : Image) : Out Int := do
+  let mut maxPoint : Int := -1
+  let mut mask : Int := 0
+  for i in [0:Gen.Micro.c_maskMax.toNat] do
+    let point ← maskScore img used i
+    if (point : Int) > maxPoint then
+      maxPoint := point
+      mask := i
+  pure mask
+
 /-- Go: `EncodeToBitmap` -/
 def encodeToBitmap (qr : QRCode) : Out Image := do
   if qr.version < 1 ∨ qr.version > 4 then Out.err (α := Unit) "microqr: invalid version"
@@ -165,15 +182,7 @@ def encodeToBitmap (qr : QRCode) : Out Image := do
   let img ← placeLoop used w cap.dataBits ((w + 3) * (w + 3)).toNat { x := w, y := w, dy := -1 } buf img
   let mut mask := qr.mask
   if mask = Gen.Micro.c_maskAuto then
-    let mut maxPoint : Int := -1
-    mask := 0
-    for i in [0:Gen.Micro.c_maskMax.toNat] do
-      let pat ← deref (← imgAt maskList i)
-      let tmp ← Image.mask img used pat
-      let point ← tmp.pointMicro
-      if (point : Int) > maxPoint then
-        maxPoint := point
-        mask := i
+    mask ← autoMask img used
   -- `(format<<2)|int(mask)` on Go ints (two's complement)
   -- a negative mask makes the Go index negative (two's complement OR)
   if mask < 0 then Out.panic (α := Unit) "index out of range"
